@@ -115,6 +115,113 @@ def systematic():
     return out
 
 
+# ------------------------------------------------------------------------------------ MC_Pattern family
+MC = os.path.join(ROOT, "spec/mc/MC_Pattern.tla")
+MC_TESTS = [t_name("a"), t_name("b"), T_ANY, T_NODE, T_TEXT]
+MC_ATESTS = [t_name("x"), T_ANY, T_NODE]
+MC_PREDS = [num(1), fn("last"), path([step("child", t_name("b"))]), path([step("attribute", t_name("x"))])]
+
+
+def _rel_paths(nsteps, maxpreds, tests, attr_last=True):
+    """all relative patterns of exactly nsteps steps: tests x separators x (<= maxpreds predicates, one per step at most)"""
+    import itertools
+    out = []
+    lasts = [("child", t) for t in tests] + ([("attribute", t) for t in MC_ATESTS] if attr_last else [])
+    for firsts in itertools.product(tests, repeat=nsteps - 1):
+        for last in lasts:
+            axes_tests = [("child", t) for t in firsts] + [last]
+            for seps in itertools.product(("/", "//"), repeat=nsteps - 1):
+                for npred in range(0, min(maxpreds, nsteps) + 1):
+                    for where in itertools.combinations(range(nsteps), npred):
+                        for ps in itertools.product(MC_PREDS, repeat=npred):
+                            steps = []
+                            for i, (ax, t) in enumerate(axes_tests):
+                                if i > 0 and seps[i - 1] == "//":
+                                    steps.append(dict(DOS))
+                                pr = [ps[where.index(i)]] if i in where else []
+                                steps.append(step(ax, t, *pr))
+                            out.append(steps)
+    return out
+
+
+def _anchored(steps_list, anchors):
+    out = []
+    for steps in steps_list:
+        for a in anchors:
+            if a == "":
+                out.append(path(steps))
+            elif a == "/":
+                out.append(path(steps, abs_=True))
+            else:
+                out.append(path([dict(DOS)] + steps, abs_=True))
+    return out
+
+
+def mc_family(tier):
+    """the bounded pattern family of MC_Pattern (also replayed on the real matcher in the thorough tier)"""
+    quick = tier == "quick"
+    q = 1 if quick else 2
+    pats = _anchored(_rel_paths(1, q, MC_TESTS), ("", "/", "//"))
+    pats += _anchored(_rel_paths(2, q, MC_TESTS), ("", "/", "//"))
+    if quick:
+        pats += _anchored(_rel_paths(3, 0, [t_name("a"), t_name("b"), T_ANY, T_NODE], attr_last=False), ("", "/"))
+        pats += _anchored(_rel_paths(3, 1, [t_name("a"), T_NODE], attr_last=False), ("",))
+    else:
+        pats += _anchored(_rel_paths(3, 1, MC_TESTS), ("", "/", "//"))
+        pats += _anchored(_rel_paths(3, 2, [t_name("a"), t_name("b"), T_NODE], attr_last=False), ("", "/"))
+    # unions of two: every deviation class next to an unaffected alternative, and pairs of classes
+    alts = [path([step("child", t_name("a")), dict(DOS), step("child", t_name("b"))], abs_=True),
+            path([step("child", t_name("b")), step("child", t_name("a")), dict(DOS), step("child", t_name("b"))]),
+            path([step("child", T_NODE)]), path([step("attribute", T_NODE)]), path([step("attribute", t_name("x"), num(1))]),
+            path([step("child", t_name("a"))]), path([step("child", T_TEXT)]), path([], abs_=True),
+            path([step("child", t_name("b"), fn("last"))]), path([step("child", T_ANY), step("attribute", T_ANY)])]
+    for i, a in enumerate(alts):
+        for b in alts[i + 1:]:
+            pats.append(bin_("|", a, b))
+            pats.append(bin_("|", b, a))
+    # heads and predicate sequences outside the product
+    idh = fn("id", lit("i1 i2"))
+    ab = [step("child", t_name("a")), step("child", t_name("b"))]
+    pats += [idh, path(ab[:1], start=idh), path([dict(DOS)] + ab[:1], start=idh), path([ab[0], dict(DOS), ab[1]], start=idh),
+             path([dict(DOS), ab[0], dict(DOS), ab[1]], start=idh), path([], abs_=True)]
+    for t in (t_name("a"), T_ANY, T_NODE, T_TEXT):
+        for ps in ([num(1), MC_PREDS[2]], [MC_PREDS[2], num(1)], [fn("last"), fn("last")], [num(2)], [bin_(">", fn("position"), num(1))],
+                   [bin_(">", fn("position"), num(1)), num(1)], [fn("count", path([step("child", T_ANY)]))], [fn("not", MC_PREDS[2])]):
+            pats.append(path([step("child", t, *ps)]))
+            pats.append(path([step("child", t, *ps), dict(DOS), step("child", t_name("b"))]))
+            pats.append(path([step("child", t_name("a")), step("child", t, *ps)]))
+    seen, out = set(), []
+    for p_ in pats:
+        txt = xpgen.render(p_)
+        if txt not in seen:
+            seen.add(txt)
+            out.append(p_)
+    return out
+
+
+def mc_docs(tier):
+    E, A, T, R = xdm.E, xdm.A, xdm.T, xdm.R
+    nested = [R(E("c", E("a", E("a", E("b"))))),                                              # the c/a//b example
+              R(E("b", E("a", E("b", E("a", E("b", a=[A("x", "1")])), T("t"))), E("b"))),
+              R(E("a", E("a", E("a", E("b", a=[A("x", "1")]), E("a", E("b"), E("b"))), E("b")), a=[A("id", "i1")])),
+              R(E("b", E("b", E("a", E("a", T("t"), E("b", T("t"))), a=[A("id", "i2"), A("x", "1")])))),
+              c02.fixed_docs()[2], c02.fixed_docs()[4]]
+    fam = list(xdm.enum_docs(5))
+    if tier == "quick":
+        fam = fam[::2]
+    return nested + fam
+
+
+def mc_pattern(res, tier, wd, workers=4):
+    pats, docs = mc_family(tier), mc_docs(tier)
+    pp, dp = os.path.join(wd, "mc-pats.ndjson"), os.path.join(wd, "mc-pdocs.ndjson")
+    vlib.write_ndjson(pp, [{"text": xpgen.render(p_), "pat": xpgen.strip_render_only(p_)} for p_ in pats])
+    vlib.write_ndjson(dp, [xdm.flatten(t, c02.ID_ATTRS) for t in docs])
+    r = vlib.tlc_mc(MC, name="patmc", env={"DOCS": dp, "PATS": pp}, workers=workers, timeout=3000)
+    res.add_mc(r, "MC_Pattern (PatternMatcherImpl vs XPathSem!MatchSet: %d patterns x %d documents, every node; known deviations named and shown real)" % (len(pats), len(docs)))
+    return pats, docs
+
+
 def run(res, tier, seed):
     rng = random.Random(seed)
     quick = tier == "quick"
